@@ -11,7 +11,7 @@ from vpbt.core import lib_frame, library_raised
 PID = "C15"
 RULE = (
     "Cases: the shared closed-CFG sweep (enumerated n<=5 slice, Hypothesis graphs incl. name styles whose string order differs from numeric order, corpus "
-    "shapes) with plain and bytecode-range payloads at the stage prefixes none/closed/loop/branch. For each: to_dict and to_yaml must not raise; from_dict / "
+    "shapes) with plain and bytecode-range payloads at the stage prefixes none/closed/loop/branch; plus the graphs the bytecode front end builds for standard-library functions (real offset ranges, generator-made names) at the same stages. For each: to_dict and to_yaml must not raise; from_dict / "
     "from_yaml of the result must give a hierarchy equal to the original under an own canonical dump (types, payload fields, ordered successors, back "
     "edges, value tables, assignments, nesting, kind, header, exiting, parent; block insertion order is not compared); to_dict of the re-read graph equals "
     "the first dictionary and to_yaml of the re-read graph equals the first text (write-read-write-read); the region-by-region walk of C01 still succeeds on "
@@ -94,15 +94,70 @@ def _eval(col, intg, g, origin):
     col.case((gg.gkey(g), payload), len(g), nt, sample=dict(graph=gg.graph_to_str(g), payload=payload, origin=origin), classes=classes + ["payload:" + payload, "origin:" + origin])
 
 
+def _eval_byteflow(col, label, code):
+    """graphs as the bytecode front end builds them (real begin/end ranges,
+    generator-made names), every stage."""
+    from numba_scfg.core.datastructures.byte_flow import ByteFlow
+
+    nt = False
+    for stage in STAGES:
+        try:
+            flow = ByteFlow.from_bytecode(code)
+            g = {k: tuple(b._jump_targets) for k, b in flow.scfg.graph.items()}
+            if stage != "none":
+                M.apply_stage(flow.scfg, stage)
+        except Exception as e:
+            if not library_raised(e):
+                raise
+            col.count("byteflow_not_evaluated")
+            continue
+        col.count("roundtrips")
+        try:
+            roundtrip(g, flow.scfg)
+        except M.Viol as v:
+            col.fail(f"C15:bf:{v.clause}", f"[{stage}] {label}: {v.msg}", dict(function=label, stage=stage), len(g))
+        nt = nt or (stage == "branch" and len(g) > 3)
+    col.case(("bf", label), len(code.co_code), nt, sample=dict(function=label, front_end="bytecode"), classes=["byteflow"])
+
+
 def run(spec):
+    if spec[0] == "byteflow":
+        from vpbt import bytecode_model as bm
+        from vpbt.core import Collector
+
+        _, shard, nshards, limit = spec
+        col = Collector()
+        n = 0
+        for label, code in bm.corpus_codes(shard, nshards):
+            if n >= limit:
+                break
+            if not bm.eligible(code) or len(code.co_code) > 800 or bm.shape_of(code) is None:
+                continue
+            n += 1
+            _eval_byteflow(col, label, code)
+        return col.result()
     return sweep.run(spec, _eval)
 
 
 def plan(tier, seed):
-    return sweep.plan(tier, seed, scale=0.25 if tier == "quick" else 0.3)
+    specs = sweep.plan(tier, seed, scale=0.25 if tier == "quick" else 0.3)
+    if tier == "quick":
+        specs += [("byteflow", s, 16, 12) for s in range(16)]
+    else:
+        specs += [("byteflow", s, 16, 10**9) for s in range(16)]
+    return specs
 
 
 def replay(inp):
+    if "function" in inp:
+        from vpbt import bytecode_model as bm
+        from vpbt.core import Collector
+
+        col = Collector()
+        for label, code in bm.corpus_codes(modules=[inp["function"].split(":")[0]]):
+            if label == inp["function"]:
+                _eval_byteflow(col, label, code)
+        return [(s_, f["msg"]) for s_, f in col.failures.items()]
     g = gg.graph_from_json(inp["graph"])
     scfg = M.mk_scfg(g, inp.get("payload", "plain"))
     try:
